@@ -56,12 +56,18 @@ type Segment struct {
 func (s *Segment) WriteTo(w io.Writer, _ chan struct{}) (int64, error) {
 	bw := bufio.NewWriter(w)
 
-	n, err := s.data.WriteTo(w)
+	// hash the data while writing it: the crc kept in the footer of a
+	// loaded segment covers the whole file it was loaded from (data and
+	// footer), so it cannot seed the crc of the new footer
+	cw := newCountHashWriter(w)
+	n, err := s.data.WriteTo(cw)
 	if err != nil {
 		return n, fmt.Errorf("error persisting segment: %w", err)
 	}
 
-	err = persistFooter(s.footer, bw)
+	footerOut := *s.footer
+	footerOut.crc = cw.Sum32()
+	err = persistFooter(&footerOut, bw)
 	if err != nil {
 		return n, fmt.Errorf("error persisting segment footer: %w", err)
 	}
